@@ -152,6 +152,9 @@ def check_output(d, meta, W, out, counters, wrapped_kinds):
     return None
 
 
+PAIRED_TAGS = {'minus_emph', 'minus_nonemph', 'plus_emph', 'plus_nonemph'}
+
+
 def side_stream(parsed, side):
     out = []
     for idx, (L, R, row) in enumerate(parsed):
@@ -165,6 +168,7 @@ def side_stream(parsed, side):
 def check_hunk(h, parsed, meta, max_rows, counters, wrapped_kinds):
     lines = [(k, t) for k, t in h.lines if k != '\\']
     first_rows = {0: [], 1: []}
+    paired_rows = {0: [], 1: []}
     for side, kinds in ((0, '- '), (1, '+ ')):
         expected = [(k, t) for k, t in lines if k in kinds]
         stream = side_stream(parsed, side)
@@ -215,6 +219,10 @@ def check_hunk(h, parsed, meta, max_rows, counters, wrapped_kinds):
                     return 'text-after-wrap-symbol:' + sname, 'non-blank cells after the wrap symbol', '', ''.join(c.ch for c in p.after_wrap_cells)
             shown = ''.join(frags)
             first_rows[side].append((k, first_idx))
+            if k in '-+':
+                fp = stream[i - nrows][1]
+                if any(gen.TAG_BY_RGB.get(c.bg) in PAIRED_TAGS for c in fp.code_cells):
+                    paired_rows[side].append(first_idx)
             if nrows > 1 or truncated:
                 wrapped_kinds.add(k)
                 counters['wrapped_lines'] += 1
@@ -255,6 +263,10 @@ def check_hunk(h, parsed, meta, max_rows, counters, wrapped_kinds):
     zr = [r for k, r in first_rows[1] if k == ' ']
     if zl != zr:
         return 'zero-row-sharing', 'an unchanged line does not start on the same row in both panels', zl, zr
+    # lines painted as having a partner (emphasis / non-emphasis styles) start on the row on which their partner starts
+    if all(t.strip() for k, t in lines if k in '-+') and paired_rows[0] != paired_rows[1]:
+        return 'paired-lines-not-on-one-row', 'removed and added lines that are painted as a pair do not start on the same rows', paired_rows[0], paired_rows[1]
+    counters['paired_rows_checked'] = counters.get('paired_rows_checked', 0) + len(paired_rows[0])
     return None
 
 
